@@ -142,9 +142,9 @@ inductive DeclTy where
   | set | mutSet | absSet | frozenset
   | list | sequence | mutSequence | homTuple | hetTuple | deque
   | dict | mapping | mutMapping | counter | orderedDict | defaultDict
-  /-- unparametrised `collections.abc.Sequence` / `Set` / `MutableSet`: matched by none of the predicates
-  (`is_sequence` lists `AbcMutableSequence` but not `AbcSequence`, `is_mutable_set` only the `typing` spellings); they
-  fall through to the unstructure fallback (`identity`): the value is returned unchanged, elements included -/
+  /-- unparametrised `collections.abc.Sequence` / `Set` / `MutableSet`: listed in `is_sequence` / `is_mutable_set`
+  beside the `typing` spellings (since the repair of F45; before it they matched no predicate and the value was
+  returned unchanged) -/
   | bareAbcSequence | bareAbcSet | bareAbcMutSet
   deriving DecidableEq, Repr, Inhabited
 
@@ -155,37 +155,35 @@ def tSet : Target := 2
 def tFrozenset : Target := 3
 def tDict : Target := 4
 
-/-- `(get_origin(cl) or cl, unstructure_to or <default>)` of the consumer the declared type reaches; `none`: no consumer -/
-def consumer : DeclTy → Option (CKey × Target)
-  | .set => some (.set, tSet)                 -- is_mutable_set → gen_unstructure_iterable(cl, unstructure_to=set)
-  | .mutSet => some (.mutSet, tSet)
-  | .absSet => some (.absSet, tSet)           -- origin AbcSet is in is_mutable_set's tuple
-  | .frozenset => some (.frozenset, tFrozenset)
-  | .list => some (.list, tList)              -- is_sequence → gen_unstructure_iterable(cl) (default list)
-  | .sequence => some (.sequence, tList)
-  | .mutSequence => some (.mutSequence, tList)
-  | .homTuple => some (.tuple, tList)         -- tuple[T, ...] is a sequence
-  | .hetTuple => some (.tuple, tTuple)        -- is_hetero_tuple → gen_unstructure_hetero_tuple (default tuple)
-  | .deque => some (.deque, tList)
-  | .dict => some (.dict, tDict)              -- is_mapping → gen_unstructure_mapping (default dict)
-  | .mapping => some (.mapping, tDict)
-  | .mutMapping => some (.mutMapping, tDict)
-  | .counter => some (.counter, tDict)
-  | .orderedDict => some (.orderedDict, tDict)
-  | .defaultDict => some (.defaultDict, tDict)
-  | .bareAbcSequence => none
-  | .bareAbcSet => none
-  | .bareAbcMutSet => none
+/-- `(get_origin(cl) or cl, unstructure_to or <default>)` of the consumer the declared type reaches -/
+def consumer : DeclTy → CKey × Target
+  | .set => (.set, tSet)                 -- is_mutable_set → gen_unstructure_iterable(cl, unstructure_to=set)
+  | .mutSet => (.mutSet, tSet)
+  | .absSet => (.absSet, tSet)           -- origin AbcSet is in is_mutable_set's tuple
+  | .frozenset => (.frozenset, tFrozenset)
+  | .list => (.list, tList)              -- is_sequence → gen_unstructure_iterable(cl) (default list)
+  | .sequence => (.sequence, tList)
+  | .mutSequence => (.mutSequence, tList)
+  | .homTuple => (.tuple, tList)         -- tuple[T, ...] is a sequence
+  | .hetTuple => (.tuple, tTuple)        -- is_hetero_tuple → gen_unstructure_hetero_tuple (default tuple)
+  | .deque => (.deque, tList)
+  | .dict => (.dict, tDict)              -- is_mapping → gen_unstructure_mapping (default dict)
+  | .mapping => (.mapping, tDict)
+  | .mutMapping => (.mutMapping, tDict)
+  | .counter => (.counter, tDict)
+  | .orderedDict => (.orderedDict, tDict)
+  | .defaultDict => (.defaultDict, tDict)
+  | .bareAbcSequence => (.sequence, tList)   -- `get_origin(cl) or cl` = the class itself
+  | .bareAbcSet => (.absSet, tSet)
+  | .bareAbcMutSet => (.mutSet, tSet)
 
 /-- the container a value of declared type `d` is unstructured into by a converter whose (closed) override dict is
-`co`: `co.get(origin, default)`; `none` = no consumer is reached, the value is returned unchanged -/
-def containerOf (co : Map) (d : DeclTy) : Option Target :=
-  match consumer d with
-  | none => none
-  | some (k, dflt) => some ((lookup co k).getD dflt)
+`co`: `co.get(origin, default)` -/
+def containerOf (co : Map) (d : DeclTy) : Target :=
+  (lookup co (consumer d).1).getD (consumer d).2
 
 /-- for a converter built from the user's map -/
-def containerFor (m : Map) (d : DeclTy) : Option Target := containerOf (closure m) d
+def containerFor (m : Map) (d : DeclTy) : Target := containerOf (closure m) d
 
 /-! ## `dict_factory` -/
 
